@@ -40,7 +40,7 @@ func genC19(rt *rapid.T) CaseC19 {
 	}
 	n := rapid.IntRange(2, 10).Draw(rt, "nsteps")
 	for i := 0; i < n; i++ {
-		st := StepC19{Kind: rapid.SampledFrom([]string{"local", "local", "remote", "remote", "remote", "rmerge", "rmerge", "merge", "merge", "merge", "reopen", "reopen", "snapshot", "snapshot", "failwrite", "reload"}).Draw(rt, "kind")}
+		st := StepC19{Kind: rapid.SampledFrom([]string{"local", "local", "remote", "remote", "remote", "rmerge", "rmerge", "merge", "merge", "merge", "reopen", "reopen", "snapshot", "snapshot", "failwrite", "reload", "snapload"}).Draw(rt, "kind")}
 		switch st.Kind {
 		case "reload":
 			st.N = rapid.SampledFrom([]int{-1, 0, 1, 2, 3, 50}).Draw(rt, "limit")
@@ -60,6 +60,17 @@ func genC19(rt *rapid.T) CaseC19 {
 			}
 		}
 		c.Steps = append(c.Steps, st)
+	}
+	if rapid.IntRange(0, 3).Draw(rt, "tail") == 0 {
+		// a forked log (concurrent local and remote runs, merged), reopened from its cached heads - it then rests
+		// below its entry count, at the largest clock - and one more load, snapshot or merge on top of that state
+		w := rapid.IntRange(1, c.Others).Draw(rt, "tw")
+		c.Steps = append(c.Steps,
+			StepC19{Kind: "local", N: rapid.IntRange(1, 4).Draw(rt, "tl")},
+			StepC19{Kind: "remote", W: w, N: rapid.IntRange(1, 4).Draw(rt, "tr")},
+			StepC19{Kind: "merge", W: w},
+			StepC19{Kind: "reopen"},
+			StepC19{Kind: rapid.SampledFrom([]string{"snapload", "snapload", "reload", "snapshot", "merge"}).Draw(rt, "tk"), W: w, N: -1})
 	}
 	return c
 }
@@ -339,6 +350,25 @@ func execC19(c CaseC19) *Outcome {
 			// Reopen opens with replication on; that is fine here (nobody else publishes)
 			ss.reset(cl.Stores[0])
 			o.Labels = append(o.Labels, "reopen")
+		case "snapload":
+			// the open store saves a snapshot and loads it back into itself (whatever its status was: after a
+			// reopen of a forked log it rests below the entry count, which the property allows)
+			s0 := cl.Stores[0]
+			if s0.OpLog().Len() == 0 || trimmed {
+				continue
+			}
+			if !cl.W.WaitQuiescent([]iface.Store{s0}, nil, 20*time.Second) {
+				o.Inconclusive = true
+				return o
+			}
+			if _, err := basestore.SaveSnapshot(ctx, s0); err != nil {
+				return fail("step %d: SaveSnapshot: %v", i, err)
+			}
+			if err := s0.LoadFromSnapshot(ctx); err != nil {
+				return fail("step %d: LoadFromSnapshot into the open store: %v", i, err)
+			}
+			ss.sample("after LoadFromSnapshot into the open store")
+			o.Labels = append(o.Labels, "snapshot-into-open-store")
 		case "snapshot":
 			s0 := cl.Stores[0]
 			if s0.OpLog().Len() == 0 {
